@@ -184,6 +184,10 @@ func (s *Session) targets(prop string, only string) ([]target, []string) {
 			if only != "" && !strings.Contains(key, only) {
 				continue
 			}
+			if strings.HasPrefix(fs.Target, "prove ") {
+				out = append(out, target{w, ss, nil, fs, key})
+				continue
+			}
 			fn := w.lookupFunc(fs.Pkg, fs.Target)
 			if fn == nil {
 				missing = append(missing, key)
@@ -307,7 +311,7 @@ func cmdFn(args []string) int {
 			fmt.Println("MISSING target:", m)
 		}
 		for _, t := range ts {
-			res := verifyFunction(t.w, t.ss, t.fn, t.spec)
+			res := verifyTarget(t)
 			if *nosolve {
 				os.MkdirAll(*keep, 0o755)
 				for _, o := range res.Obls {
